@@ -1,5 +1,116 @@
-import Gobptree.Ops
+/-
+  C11 — all guarantees hold on the whole key domain; ComparableTree uses only Less.
+
+  Every theorem of C01/C02/C05/C08 is stated for an ARBITRARY key type `K` and an
+  arbitrary comparison `lt : K → K → Bool` that is a strict weak order (`SWO lt`),
+  with an arbitrary padding producer `P.pad`: nothing else about keys is available to
+  the model (its definitions take no `DecidableEq K`, `Ord K`, … instance), so the
+  guarantees hold at the extremes of the integer types, for the empty string and
+  prefixes, and for `Less` relations whose equivalence is coarser than `==`.
+-/
+import Gobptree.Proofs.RunOk
+
 namespace Gobptree
-theorem C11_placeholder : True := trivial
+
+variable {K V : Type} {lt : K → K → Bool} {P : Params K}
+
+/-- **C11, same entry.** Two keys denote the same entry exactly when neither is less than
+    the other: inserting `k'` equivalent to a stored `k` replaces the value and KEEPS the
+    stored key (specification level; the model refines it by `C01_refines_map`). -/
+theorem C11_same_entry (h : SWO lt) (m : List (K × V)) (k k' : K) (v v' : V)
+    (he : eqv lt k' k = true) (hm : ∀ p ∈ m, lt k p.1 = true) :
+    Spec.insert lt ((k, v) :: m) k' v' = (k, v') :: m := by
+  simp only [eqv, Bool.and_eq_true, Bool.not_eq_true'] at he
+  simp [Spec.insert, he.1, he.2]
+
+/-- **C11, lookups use only the order.** A lookup with an equivalent key finds the entry. -/
+theorem C11_lookup_eqv (h : SWO lt) (m : List (K × V)) (k k' : K) (he : eqv lt k k' = true) :
+    Spec.lookup lt m k = Spec.lookup lt m k' := by
+  unfold Spec.lookup
+  have hfun : (fun p : K × V => eqv lt k p.1) = (fun p : K × V => eqv lt k' p.1) := by
+    funext p
+    have h1 : lt k p.1 = lt k' p.1 := h.lt_congr_left he
+    have h2 : lt p.1 k = lt p.1 k' := h.lt_congr_right he
+    simp only [eqv, h1, h2]
+  rw [hfun]
+
+/-- keys an operation supplies -/
+def Op.key : Op K V → K
+  | .insert k _ => k
+  | .update k _ => k
+  | .delete k => k
+  | .search k => k
+
+theorem Spec.insert_keys (m : List (K × V)) (k : K) (v : V) :
+    ∀ p ∈ Spec.insert lt m k v, p.1 = k ∨ ∃ q ∈ m, q.1 = p.1 := by
+  induction m with
+  | nil => intro p hp; simp [Spec.insert] at hp; left; rw [hp]
+  | cons q m ih =>
+    obtain ⟨k', v'⟩ := q
+    intro p hp
+    simp only [Spec.insert] at hp
+    split at hp
+    · cases List.mem_cons.mp hp with
+      | inl e => left; rw [e]
+      | inr e => right; exact ⟨p, e, rfl⟩
+    · split at hp
+      · cases List.mem_cons.mp hp with
+        | inl e => right; exact ⟨(k', v'), by simp, by rw [e]⟩
+        | inr e =>
+          cases ih p e with
+          | inl e' => left; exact e'
+          | inr e' => obtain ⟨q, hq, e''⟩ := e'; right; exact ⟨q, by simp [hq], e''⟩
+      · cases List.mem_cons.mp hp with
+        | inl e => right; exact ⟨(k', v'), by simp, by rw [e]⟩
+        | inr e => right; exact ⟨p, by simp [e], rfl⟩
+
+/-- **C11, no placeholder is ever stored.** Every key stored after any history was
+    supplied by the client as the argument of an Insert or Update of that history — for
+    EVERY padding producer `P.pad`, so a `ZeroValue()`/`0`/`""` placeholder appears among
+    the stored keys only if the client itself stored it. -/
+theorem C11_no_padding (hp : ParamsOk lt P) (ops : List (Op K V))
+    (hdel : ∀ op ∈ ops, op.isDelete = true → 4 ≤ P.order) :
+    ∃ (t' : Tree K V) (outs : List (Out V)),
+      (Tree.new P.order : Tree K V).run P ops = .ok (t', outs) ∧
+      ∀ p ∈ t'.abs, ∃ op ∈ ops, op.key = p.1 ∧ op.isDelete = false := by
+  obtain ⟨hinv, hnil⟩ := new_ok (lt := lt) (K := K) (V := V) P.order
+  obtain ⟨t', heq, _, _, hp'⟩ := run_ok hp ops (Tree.new P.order) rfl hinv hdel
+  refine ⟨t', _, heq, ?_⟩
+  rw [Tree.abs_eq_pairs, hp', hnil]
+  -- a statement about the specification alone
+  suffices hs : ∀ (ops : List (Op K V)) (m : List (K × V)),
+      ∀ p ∈ (Spec.run lt m ops).1, (∃ q ∈ m, q.1 = p.1) ∨ ∃ op ∈ ops, op.key = p.1 ∧ op.isDelete = false by
+    intro p hp
+    cases hs ops [] p hp with
+    | inl e => obtain ⟨q, hq, _⟩ := e; simp at hq
+    | inr e => exact e
+  intro ops
+  induction ops with
+  | nil => intro m p hp; left; exact ⟨p, hp, rfl⟩
+  | cons op ops ih =>
+    intro m p hp
+    simp only [Spec.run] at hp
+    cases ih _ p hp with
+    | inr e => obtain ⟨o, ho, e'⟩ := e; right; exact ⟨o, by simp [ho], e'⟩
+    | inl e =>
+      obtain ⟨q, hq, e'⟩ := e
+      cases op with
+      | insert k v =>
+        cases Spec.insert_keys (lt := lt) m k v q hq with
+        | inl e'' => right; exact ⟨.insert k v, by simp, by simp [Op.key, ← e', e''], rfl⟩
+        | inr e'' => obtain ⟨r, hr, e3⟩ := e''; left; exact ⟨r, hr, by rw [e3, e']⟩
+      | update k f =>
+        cases Spec.insert_keys (lt := lt) m k _ q hq with
+        | inl e'' => right; exact ⟨.update k f, by simp, by simp [Op.key, ← e', e''], rfl⟩
+        | inr e'' => obtain ⟨r, hr, e3⟩ := e''; left; exact ⟨r, hr, by rw [e3, e']⟩
+      | delete k =>
+        left
+        simp only [Spec.step, Spec.erase] at hq
+        exact ⟨q, (List.mem_filter.mp hq).1, e'⟩
+      | search k => left; exact ⟨q, hq, e'⟩
+
 end Gobptree
-#print axioms Gobptree.C11_placeholder
+
+#print axioms Gobptree.C11_same_entry
+#print axioms Gobptree.C11_lookup_eqv
+#print axioms Gobptree.C11_no_padding
